@@ -3,7 +3,7 @@ import json
 import os
 import vlib
 
-PROPS = ['Rangers.Props.C16', 'Rangers.Props.C16B', 'Rangers.Props.C16Qn', 'Rangers.Props.C16Gen', 'Rangers.Props.C16Curve', 'Rangers.Props.C16Window', 'Rangers.Props.C16Msg', 'Rangers.Props.C16Worker']
+PROPS = ['Rangers.Props.C16', 'Rangers.Props.C16B', 'Rangers.Props.C16Qn', 'Rangers.Props.C16Gen', 'Rangers.Props.C16Curve', 'Rangers.Props.C16Window', 'Rangers.Props.C16Msg', 'Rangers.Props.C16Worker', 'Rangers.Props.C16Prime']
 DRIVERS = ['C16']
 META = dict(
     level='proof',
@@ -96,7 +96,19 @@ def correspond(ctx):
         c['stats'] = st
         # unmodelled lines are not evidence
         c['distinct_nontrivial'] = max(0, c.get('distinct_nontrivial', 0) - c.get('unmodelled', 0) - c.get('bad_op', 0))
-    return [c]
+    res = [c]
+    # fork-configuration sessions: the qualification rule under the mainnet and robin schedules (their own
+    # Proposal025Block, heights on both sides); the model takes the threshold from the op line
+    for env in ('mainnet', 'robin'):
+        f = vlib.correspond(ctx, 'c16', 'C16', ['env=' + env, 'part=fork'], canon=canon, timeout=600)
+        f['name'] = 'c16-fork-' + env
+        if f.get('paths'):
+            st = f.get('stats') if isinstance(f.get('stats'), dict) else {}
+            st.pop('results', None)
+            st['distribution'] = _classes(f['paths'])
+            f['stats'] = st
+        res.append(f)
+    return res
 
 
 def search(ctx, hints):
@@ -114,10 +126,17 @@ def search(ctx, hints):
                           env=dict(VERIF_SEED=str(ctx.seed), VERIF_TIER=ctx.tier, VERIF_DISABLE_NTP='1'), timeout=secs * 4 + 120)
     import shutil
     shutil.rmtree(cwd, ignore_errors=True)
-    if rc != 0 or not os.path.exists(out):
-        return dict(evaluations=0, distinct_nontrivial=0, violations=[], samples=[],
+    if not os.path.exists(out):
+        # nothing written at all: keep what was printed when found
+        found = [json.loads(l[6:]) for l in so.split('\n') if l.startswith('FOUND ')]
+        return dict(evaluations=0, distinct_nontrivial=0, violations=found, samples=[],
                     error='searcher exited %d: %s' % (rc, (se or so)[-800:]))
     r = json.load(open(out))
+    if rc != 0 or not r.get('complete', False):
+        # the searcher died part-way: what it had found is in the partial file (rewritten on every find)
+        return dict(evaluations=r.get('evaluations', 0), distinct_nontrivial=r.get('distinct', 0), violations=r.get('violations', []),
+                    samples=r.get('samples', [])[:6], counts=r.get('counts', {}),
+                    error='searcher exited %d before completing: %s' % (rc, (se or so)[-800:]))
     res = dict(evaluations=r.get('evaluations', 0), distinct_nontrivial=r.get('distinct', 0),
                samples=r.get('samples', [])[:6], violations=r.get('violations', []),
                counts=r.get('counts', {}),
